@@ -99,24 +99,47 @@ func init() {
 	}
 }
 
-// C01StaticCase: a compiled type by index, defaults and layers; layers are
-// served by static sources (and the last ones optionally by a watcher as
-// later updates of one slot).
+// C01StaticCase: a compiled type by index, defaults and layers.  The first
+// len(Layers)-Restacks layers are the initial values of as many sources, in
+// argument order; Watch says which of those sources are watchers (static and
+// watching sources interleave freely).  The remaining layers arrive later as
+// updates of the watcher named by Targets (an update replaces that source's
+// whole slot).
 type C01StaticCase struct {
 	Type     int        `json:"type"`
 	Data     shape.Data `json:"data"`
-	Restacks int        `json:"restacks"` // how many of the last layers arrive as watcher updates of the last slot
+	Restacks int        `json:"restacks"`
+	Watch    []bool     `json:"watch,omitempty"`
+	Targets  []int      `json:"targets,omitempty"`
 }
 
 func genC01Static(t *rapid.T) C01StaticCase {
 	c := C01StaticCase{Type: rapid.IntRange(0, len(staticTypes)-1).Draw(t, "type")}
 	nodes := shape.Walk(staticTypes[c.Type].t)
-	c.Data = shape.GenData(t, nodes, 5, 35)
+	c.Data = shape.GenData(t, nodes, 6, 35)
 	for i := range c.Data.Layers {
 		c.Data.Layers[i].ByPtr = rapid.Bool().Draw(t, "by_ptr")
 	}
-	if len(c.Data.Layers) > 0 {
-		c.Restacks = rapid.IntRange(0, len(c.Data.Layers)-1).Draw(t, "restacks")
+	nl := len(c.Data.Layers)
+	if nl > 0 {
+		c.Restacks = rapid.IntRange(0, nl-1).Draw(t, "restacks")
+	}
+	nInit := nl - c.Restacks
+	c.Watch = make([]bool, nInit)
+	for i := range c.Watch {
+		c.Watch[i] = rapid.IntRange(0, 2).Draw(t, "watching") == 0
+	}
+	if c.Restacks > 0 {
+		any := false
+		for _, w := range c.Watch {
+			any = any || w
+		}
+		if !any {
+			c.Watch[rapid.IntRange(0, nInit-1).Draw(t, "forced_watcher")] = true
+		}
+		for i := 0; i < c.Restacks; i++ {
+			c.Targets = append(c.Targets, rapid.IntRange(0, nInit-1).Draw(t, "target"))
+		}
 	}
 	return c
 }
@@ -130,7 +153,12 @@ func runStatic[T any](c C01StaticCase) vrt.Verdict {
 	if c.Restacks < 0 || c.Restacks > nl {
 		return vrt.Discardf("bad restacks")
 	}
-	nStatic := nl - c.Restacks
+	nInit := nl - c.Restacks
+	watch := c.Watch
+	if len(watch) != nInit {
+		// older saved cases: all static, one trailing watcher for the updates
+		watch = make([]bool, nInit)
+	}
 	defaults := b.Defaults(d)
 	ctx, cancel := context.WithCancel(context.Background())
 	defer cancel()
@@ -147,21 +175,34 @@ func runStatic[T any](c C01StaticCase) vrt.Verdict {
 		}
 	}
 	var srcs []dials.Source
-	for i := 0; i < nStatic; i++ {
-		srcs = append(srcs, &fake.Static{Mk: mk(d.Layers[i])})
+	watchers := map[int]*fake.Watcher{}
+	var watcherIdx []int
+	for i := 0; i < nInit; i++ {
+		if watch[i] {
+			w := &fake.Watcher{Mk: mk(d.Layers[i])}
+			watchers[i] = w
+			watcherIdx = append(watcherIdx, i)
+			srcs = append(srcs, w)
+		} else {
+			srcs = append(srcs, &fake.Static{Mk: mk(d.Layers[i])})
+		}
 	}
-	var w *fake.Watcher
-	if c.Restacks > 0 {
-		w = &fake.Watcher{}
-		srcs = append(srcs, w)
+	var tail *fake.Watcher
+	if c.Restacks > 0 && len(watcherIdx) == 0 {
+		tail = &fake.Watcher{}
+		srcs = append(srcs, tail)
 	}
 	dl, err := dials.Config(ctx, defaults.Interface().(*T), srcs...)
 	if err != nil {
 		return vrt.Violationf("Config failed: %v", err)
 	}
-	check := func(layers []shape.Layer, what string) string {
+	slots := append([]shape.Layer{}, d.Layers[:nInit]...)
+	if tail != nil {
+		slots = append(slots, shape.Layer{})
+	}
+	check := func(what string) string {
 		md := d
-		md.Layers = layers
+		md.Layers = slots
 		want := b.Expected(md)
 		got := reflect.ValueOf(dl.View())
 		if df := shape.Diff(want.Elem(), got.Elem()); df != "" {
@@ -169,16 +210,37 @@ func runStatic[T any](c C01StaticCase) vrt.Verdict {
 		}
 		return ""
 	}
-	if msg := check(d.Layers[:nStatic], "initial stack"); msg != "" {
+	if msg := check("initial stack"); msg != "" {
 		return vrt.Violationf("%s", msg)
 	}
-	for i := nStatic; i < nl; i++ {
-		if err := w.Args.BlockingReportNewValue(ctx, mk(d.Layers[i])(w.Type)); err != nil {
-			return vrt.Violationf("re-stack %d failed: %v", i-nStatic, err)
+	staticAfterWatcher := false
+	for i := nInit; i < nl; i++ {
+		w, slot := tail, len(slots)-1
+		if tail == nil {
+			tgt := 0
+			if k := i - nInit; k < len(c.Targets) {
+				tgt = c.Targets[k]
+			}
+			// the nearest watcher at or after the drawn position (wrapping)
+			slot = watcherIdx[0]
+			for _, wi := range watcherIdx {
+				if wi >= tgt%nInit {
+					slot = wi
+					break
+				}
+			}
+			w = watchers[slot]
+			for j := slot + 1; j < nInit; j++ {
+				if !watch[j] {
+					staticAfterWatcher = true
+				}
+			}
 		}
-		// the watcher's slot now holds layer i (it replaces the slot's previous value)
-		layers := append(append([]shape.Layer{}, d.Layers[:nStatic]...), d.Layers[i])
-		if msg := check(layers, fmt.Sprintf("after re-stack %d", i-nStatic)); msg != "" {
+		if err := w.Args.BlockingReportNewValue(ctx, mk(d.Layers[i])(w.Type)); err != nil {
+			return vrt.Violationf("re-stack %d failed: %v", i-nInit, err)
+		}
+		slots[slot] = d.Layers[i]
+		if msg := check(fmt.Sprintf("after update %d (source %d of %d)", i-nInit, slot, len(slots))); msg != "" {
 			return vrt.Violationf("%s", msg)
 		}
 	}
@@ -186,7 +248,7 @@ func runStatic[T any](c C01StaticCase) vrt.Verdict {
 		return vrt.Violationf("the caller's defaults were modified at %s", df)
 	}
 	setCount := map[string]int{}
-	for _, l := range d.Layers[:nStatic] {
+	for _, l := range d.Layers[:nInit] {
 		for k := range l.Set {
 			setCount[k]++
 		}
@@ -197,13 +259,17 @@ func runStatic[T any](c C01StaticCase) vrt.Verdict {
 			multi = true
 		}
 	}
-	return vrt.OK(nStatic >= 2 && multi, "type="+staticTypes[c.Type].name, fmt.Sprintf("static-layers=%d", nStatic), fmt.Sprintf("restacks=%d", c.Restacks))
+	labels := []string{"type=" + staticTypes[c.Type].name, fmt.Sprintf("sources=%d", nInit), fmt.Sprintf("watchers=%d", len(watcherIdx)), fmt.Sprintf("restacks=%d", c.Restacks)}
+	if staticAfterWatcher {
+		labels = append(labels, "update-below-a-static-source")
+	}
+	return vrt.OK(nInit >= 2 && multi, labels...)
 }
 
 func TestC01Static(t *testing.T) {
 	vrt.Check(t, vrt.Prop[C01StaticCase]{
 		ID: "C01", Name: "static",
-		Rule: "three compiler-made config types (scalars, durations, time.Time and pointer to it, net.IP, arrays, named scalar / slice / map / text types, user pointers incl. **int, sets, nested / pointer / embedded structs incl. an embedded pointer, and unexported / dials:\"-\" / chan / func fields between retained ones) stacked through the public path Config[T] -> View from 0..5 static sources and, optionally, later watcher updates; defaults and layers from per-(layer,leaf) seeds; " +
+		Rule: "three compiler-made config types (scalars, durations, time.Time and pointer to it, net.IP, arrays, named scalar / slice / map / text types, user pointers incl. **int, sets, nested / pointer / embedded structs incl. an embedded pointer, and unexported / dials:\"-\" / chan / func fields between retained ones) stacked through the public path Config[T] -> View from 0..6 sources, static and watching ones interleaved in any argument order, followed by later updates of any of the watchers; defaults and layers from per-(layer,leaf) seeds; " +
 			"oracle: the same pure reference model as C01/reflect, leaf by leaf by field name; non-trivial = >=2 static layers with a leaf set by >=2 of them; distinct = distinct case JSON",
 		Assumptions: []string{"a watcher update replaces that source's whole slot (documented re-stack semantics)"},
 		Gen:         genC01Static,
